@@ -13,6 +13,7 @@ import BS.Proofs.ReadNCaches
 import BS.Proofs.LineOffset
 import BS.Proofs.CacheOpen
 import BS.Proofs.Push
+import BS.Proofs.Repair
 import BS.Props.C16
 
 namespace BS.Gen
@@ -417,5 +418,21 @@ theorem gen_push_data_only_appends (st : Store) (d : DataSess) (ts : Nat) (line 
   cases h : pushData st d ts line with
   | ok r => exact Props.C16.pushData_appends st d ts line r.1 r.2 h
   | error f => exact Props.C16.pushData_error_no_state st d ts line f h
+
+/-- **C05 / C16 on the translated code**: the open-time repair `FileWithInlineMeta::new` AS TRANSLATED FROM THE
+CURRENT SOURCE turns the canonical data region cut at ANY byte length into the canonical region of the completely
+written prefix - no partial, phantom or re-timed line - for every history and payload size (its two iterator-written
+stages stand for the model's functions) -/
+theorem gen_open_repair_yields_written_prefix (p : Nat) (xs : List Entry) (hv : Valid p xs) (hc : TailClean p xs) (n : Nat)
+    (hp : p < 2^60) :
+    FileWithInlineMeta_new ((Spec.encode p xs).take n) p =
+      .ok (Spec.encode p (xs.take (Spec.linesWithin p xs n)),
+           ⟨Spec.encode p (xs.take (Spec.linesWithin p xs n)), p⟩) := by
+  rw [file_new_tie _ p hp, repair_cut p xs hv hc n]
+
+/-- **C04 on the translated code**: on an intact file the translated repair changes nothing -/
+theorem gen_open_repair_identity_on_intact (p : Nat) (xs : List Entry) (hv : Valid p xs) (hc : TailClean p xs) (hp : p < 2^60) :
+    FileWithInlineMeta_new (Spec.encode p xs) p = .ok (Spec.encode p xs, ⟨Spec.encode p xs, p⟩) := by
+  rw [file_new_tie _ p hp, repair_intact p xs hv hc]
 
 end BS.Gen
